@@ -72,6 +72,11 @@ var vAPICmds = []vAPICmd{
 	vRegCmd("reg-left-aligned", func(c *reporter.Config, x string) { c.InternalTemplateName = "left-aligned" }),
 	vRegCmd("reg-old", func(c *reporter.Config, x string) { c.UseOldRegReporter = true }),
 	vRegCmd("reg-single-element", func(c *reporter.Config, x string) { c.SingleElement = x }),
+	vRegCmd("reg-single-element-csv", func(c *reporter.Config, x string) { c.SingleElement = x; c.CSV = true }),
+	vRegCmd("reg-shorten", func(c *reporter.Config, x string) { c.ShortenStrings = true }),
+	vRegCmd("reg-old-shorten", func(c *reporter.Config, x string) { c.ShortenStrings = true; c.UseOldRegReporter = true }),
+	vRegCmd("reg-totals-only", func(c *reporter.Config, x string) { c.TotalsOnly = true }),
+	vRegCmd("reg-no-totals", func(c *reporter.Config, x string) { c.Totals = false }),
 	vRegCmd("reg-element-by-food", func(c *reporter.Config, x string) { c.SingleElement = x; c.ElementGroupByFood = true }),
 	vRegCmd("reg-single-food", func(c *reporter.Config, x string) { c.SingleFood = "." }),
 	vBalCmd("bal", nil),
